@@ -1,0 +1,63 @@
+//go:build verif
+
+package multiplexing
+
+import (
+	"fmt"
+	"sort"
+	"strings"
+)
+
+// VerifState renders the multiplexer's private state in a canonical textual
+// form for the verification harness (state deduplication only; it is never
+// used as an oracle). It must only be called when the multiplexer is quiescent.
+func (m *Multiplexer) VerifState() string {
+	var b strings.Builder
+	closed := false
+	select {
+	case <-m.closed:
+		closed = true
+	default:
+	}
+	m.streamLock.Lock()
+	ids := make([]uint64, 0, len(m.streams))
+	for id := range m.streams {
+		ids = append(ids, id)
+	}
+	sort.Slice(ids, func(i, j int) bool { return ids[i] < ids[j] })
+	fmt.Fprintf(&b, "closed=%v next=%d backlog=%d wavail=%d wpend=%d;", closed, m.nextOutboundStreamIdentifier,
+		len(m.pendingInboundStreamIdentifiers), len(m.writeBufferAvailable), len(m.writeBufferPending))
+	streams := make([]*Stream, 0, len(ids))
+	for _, id := range ids {
+		streams = append(streams, m.streams[id])
+	}
+	m.streamLock.Unlock()
+	for _, s := range streams {
+		b.WriteString(s.VerifState())
+	}
+	return b.String()
+}
+
+// VerifState renders the stream's private state for the verification harness.
+func (s *Stream) VerifState() string {
+	isClosed := func(c chan struct{}) bool {
+		select {
+		case <-c:
+			return true
+		default:
+			return false
+		}
+	}
+	s.receiveBufferLock.Lock()
+	used := s.receiveBuffer.Used()
+	ready := len(s.receiveBufferReady)
+	s.receiveBufferLock.Unlock()
+	s.sendWindowLock.Lock()
+	window := s.sendWindow
+	wready := len(s.sendWindowReady)
+	s.sendWindowLock.Unlock()
+	return fmt.Sprintf("[%d est=%v rcw=%v rc=%v c=%v cw=%v rb=%d rr=%d sw=%d swr=%d rd=%d wd=%d]",
+		s.identifier, isClosed(s.established), isClosed(s.remoteClosedWrite), isClosed(s.remoteClosed),
+		isClosed(s.closed), isClosed(s.closedWrite), used, ready, window, wready,
+		len(s.readDeadline), len(s.writeDeadline))
+}
